@@ -55,7 +55,7 @@ var configs = map[string]config{
 	"C10": {pkg: "./checks/c10", shardsQ: 4, shardsT: 12, level: "exploration"},
 	"C11": {pkg: "./checks/c11", shardsQ: 4, shardsT: 12, level: "exploration"},
 	"C12": {pkg: "./checks/c12", shardsQ: 2, shardsT: 16, level: "exploration", fuzz: []fuzzTarget{{"FuzzBCD", 45}}},
-	"C13": {pkg: "./checks/c13", shardsQ: 4, shardsT: 16, level: "exploration"},
+	"C13": {pkg: "./checks/c13", shardsQ: 8, shardsT: 16, level: "exploration"},
 	"C14": {pkg: "./checks/c14", shardsQ: 4, shardsT: 16, level: "exploration"},
 	"C15": {pkg: "./checks/c15", shardsQ: 4, shardsT: 16, level: "exploration", fuzz: []fuzzTarget{{"FuzzAddr", 45}}},
 	"C16": {pkg: "./checks/c16", shardsQ: 4, shardsT: 16, level: "exploration"},
